@@ -915,7 +915,7 @@ def run(chk):
             nfail += 1
             m = int(r.split()[1])
             chk.fail(r, {'kind': 'history', 'pool': h['pool'], 'ops': h['ops'][:m]})
-            chk.failures.insert(0, chk.failures.pop())      # self-contained whatever the cause (state or not): reported first
+            chk.failures.insert(nfail - 1, chk.failures.pop())      # self-contained whatever the cause (state or not): reported first
 
     # ---- run the model on the same requests and diff exactly
     model = chk.driver(EXE, [e['req'] for e in ents])
